@@ -161,6 +161,7 @@ fn decode_body(cfg: DevCfg, activation: Activation, seed: u64, it: &mut dyn Iter
             }
             5 => steps.push(Step::Silence(1 + (nx().unwrap_or(0) as u16 % 130))),
             6 if v2 && op & 0x80 != 0 => steps.push(Step::JoinAbp),
+            6 if v2 && op & 0x40 != 0 => steps.push(Step::SetDrain(op & 0x20 != 0)),
             7 if v2 && class_c && op & 0x40 != 0 => steps.push(Step::SetClassC(op & 0x80 != 0)),
             6 => steps.push(Step::SetDr(drs[nx().unwrap_or(0) as usize % drs.len()])),
             _ => {
@@ -233,7 +234,7 @@ fn run_one(h: &History, st: &mut Stats, class: &str) {
 
 pub fn run(ctx: &mut Ctx) {
     let thorough = ctx.tier == Tier::Thorough;
-    ctx.rule = "(a) exhaustive: every word of length <= 3 (quick, 4 regions) / <= 4 (thorough, 9 regions) over a 14-letter event alphabet (silent uplink; FOpts together with a port-0 payload; garbage+foreign frame; confirmed downlink; plan narrowed to one channel in the upper half of the table; requests that would empty the plan; data-rate/channel mismatch + DlChannelReq; six queued answers after a bit-flipped frame; replay + oversize; join with CFList; join with wrong-key then all-ones DLSettings/raw CFList in RX2; join timeout; 100 silent uplinks; highest uplink DR) x {nb, async, async+ClassC} x {OTAA, ABP}, each followed by 3 silent uplinks and an answered one; (b) field sweeps: for every handled MAC command every value of every field (LinkADRReq: all 256 DR/TXPower bytes x all 256 Redundancy bytes x mask patterns; RXParamSetupReq: all 256 DLSettings x frequency set; RXTimingSetupReq/TXParamSetupReq/DutyCycleReq: all 256; authentic frames of every shape incl. FOpts together with a port-0 payload and commands on ports 224/255; NewChannelReq: all 256 indices x frequency set x DrRange bytes; DlChannelReq: all 256 indices x frequency set; JoinAccept: all 256 DLSettings x RxDelay 0..15 x CFList classes), in FOpts and in port-0 payload, RX1 and RX2, OTAA and ABP, each followed by 3 silent uplinks and one uplink with an authentic downlink; (d) join walks: US915/AU915 x every sub-band bias x 1..9 (non-compliant) retries x front-ends, 150..300 unanswered join attempts followed by a successful join and traffic; (c) proptest random histories up to 12 steps mixing every frame recipe incl. >= 90-uplink silences and re-joins; regions x {nb, async, async+ClassC}. Oracle: no panic (catch_unwind), no hang (RNG draw budget per call), joined device still hands frames to the radio. Non-trivial: history with >= 1 authentic downlink carrying MAC commands or a valid JoinAccept that the reference model says is processed; distinct by hash".into();
+    ctx.rule = "(a) exhaustive: every word of length <= 3 (quick, 4 regions) / <= 4 (thorough, 9 regions) over a 14-letter event alphabet (silent uplink; FOpts together with a port-0 payload; garbage+foreign frame; confirmed downlink; plan narrowed to one channel in the upper half of the table; requests that would empty the plan; data-rate/channel mismatch + DlChannelReq; six queued answers after a bit-flipped frame; replay + oversize; join with CFList; join with wrong-key then all-ones DLSettings/raw CFList in RX2; join timeout; 100 silent uplinks; highest uplink DR) x {nb, async, async+ClassC} x {OTAA, ABP}, each followed by 3 silent uplinks and an answered one; (b) field sweeps: for every handled MAC command every value of every field (LinkADRReq: all 256 DR/TXPower bytes x all 256 Redundancy bytes x mask patterns; RXParamSetupReq: all 256 DLSettings x frequency set; RXTimingSetupReq/TXParamSetupReq/DutyCycleReq: all 256; authentic frames of every shape incl. FOpts together with a port-0 payload and commands on ports 224/255; NewChannelReq: all 256 indices x frequency set x DrRange bytes; DlChannelReq: all 256 indices x frequency set; JoinAccept: all 256 DLSettings x RxDelay 0..15 x CFList classes), in FOpts and in port-0 payload, RX1 and RX2, OTAA and ABP, each followed by 3 silent uplinks and one uplink with an authentic downlink; (b2) plans that shrink under a mask (a mask naming a freshly created channel and one other index, then the removal of that channel, in one or two downlinks; every index pair, dynamic plans); (d) join walks: US915/AU915 x every sub-band bias x 1..9 (non-compliant) retries x front-ends, 150..300 unanswered join attempts followed by a successful join and traffic; (c) proptest random histories up to 12 steps mixing every frame recipe incl. >= 90-uplink silences and re-joins; regions x {nb, async, async+ClassC}. Oracle: no panic (catch_unwind), no hang (RNG draw budget per call), joined device still hands frames to the radio. Non-trivial: history with >= 1 authentic downlink carrying MAC commands or a valid JoinAccept that the reference model says is processed; distinct by hash".into();
     ctx.assumptions = vec![
         "application inputs stay inside what the API documents: region-defined uplink data rates, port 0 only with empty data, payload <= 242 bytes; everything received is unrestricted".into(),
         "a rejection-sampling loop that draws more than 20000 random numbers in one API call is reported as a hang".into(),
@@ -249,7 +250,7 @@ pub fn run(ctx: &mut Ctx) {
     for (ri, r) in regions.iter().enumerate() {
         for (fi, f) in fronts.iter().enumerate() {
             for otaa in [false, true] {
-                for part in 0..9u8 {
+                for part in 0..10u8 {
                     if thorough || (ri + fi + otaa as usize) % 3 == 0 {
                         jobs.push((*r, *f, otaa, part));
                     }
@@ -373,6 +374,40 @@ pub fn run(ctx: &mut Ctx) {
                                     let h = base_history(&cfg, *otaa, rng.next_u64(), vec![Step::Send { port: 1, len: 2, confirmed: false, rx: RxPlan::rx1(r) }]);
                                     run_one(&h, st, "sweep-many-requests");
                                 }
+                            }
+                        }
+                    }
+                }
+                9 => {
+                    // plans that shrink under a mask: a mask that names one freshly created channel a and
+                    // one other index u (undefined, default, or another created channel), then the
+                    // removal of a (NewChannelReq with frequency 0) in the same or in a later downlink —
+                    // what is left enabled may be an undefined channel only
+                    if reg.fixed() {
+                        continue;
+                    }
+                    let nd = reg.default_channels().len() as u8;
+                    let f = freqs[4];
+                    for a in nd..16u8 {
+                        for u in 0..16u8 {
+                            if u == a {
+                                continue;
+                            }
+                            for later in [false, true] {
+                                let mut first = vec![Cmd::NewChannelReq { idx: a, freq: f, dr_range: 0x50 }];
+                                if u >= nd && (a + u) % 3 == 0 {
+                                    first.push(Cmd::NewChannelReq { idx: u, freq: f + 200_000, dr_range: 0x50 });
+                                }
+                                first.push(Cmd::LinkAdrReq { dr: 15, txp: 15, mask: (1u16 << a) | (1u16 << u), cntl: 0, nbtrans: 1 });
+                                let remove = Cmd::NewChannelReq { idx: a, freq: 0, dr_range: 0x50 };
+                                let mid = if later {
+                                    vec![send_with(first, rng.below(3) == 0, false), Step::Silence(1), send_with(vec![remove], false, rng.below(4) == 0)]
+                                } else {
+                                    first.push(remove);
+                                    vec![send_with(first, true, false)]
+                                };
+                                let h = base_history(&cfg, *otaa, rng.next_u64(), mid);
+                                run_one(&h, st, "sweep-plan-shrinks");
                             }
                         }
                     }
